@@ -516,12 +516,26 @@ def run_check(ctx, args):
     import warnings
     warnings.resetwarnings()
     warnings.simplefilter("ignore")      # sympy re-enables its own deprecation warnings at import
-    mod.run(ctx)
+    try:
+        mod.run(ctx)
+    except Exception as ex:  # noqa: BLE001
+        # the implementation did something the harness's own plumbing (not an oracle) could not digest — e.g. a helper that
+        # used to return now raises outside every guarded call.  That is a broken correspondence, not a crash of the check:
+        # record it, keep what the oracles have already found, and let the search look for a failing input.
+        import traceback
+        tb = traceback.format_exc()
+        ctx.notes.append("property module raised: " + tb[-1500:])
+        ctx.disagreements.append({"stream": "harness", "case": type(ex).__name__ + ": " + str(ex)[:300],
+                                  "impl": tb[-600:], "model": "the harness expected this call to return"})
 
     # ---------------- layer C: widened search when A or B broke
     if (ctx.broken or ctx.disagreements) and not ctx.violations and hasattr(mod, "search"):
         ctx.notes.append("widened failing-input search ran")
-        mod.search(ctx)
+        try:
+            mod.search(ctx)
+        except Exception as ex:  # noqa: BLE001
+            import traceback
+            ctx.notes.append("search raised: " + traceback.format_exc()[-1500:])
     ctx.disagreements_checked = len(ctx.disagreements)
 
     # ---------------- outcome
